@@ -173,6 +173,17 @@ class RunTaskExecutable(Operation):
                 task_identifier=self._identifier, code=handle.returncode
             )
 
+        if self._version_to_record is not None and (
+            self._output_path.is_symlink() or not self._output_path.is_dir()
+        ):
+            # The command exited successfully but moved or removed its output
+            # directory: there are no results that this version could stand for.
+            raise TaskFailed(task_identifier=self._identifier).add_extra_context(
+                "The task's output directory '{}' no longer exists.".format(
+                    self._output_path
+                )
+            )
+
         if self._serialize_args_options:
             for file_name, values in (
                 (EXP_ARGS_JSON_FILE_NAME, self._args),
